@@ -132,7 +132,8 @@ def path_profiles(seed, tier, log):
     viol, runs = [], 0
     def profile(case):
         d = tempfile.mkdtemp(dir=tmp)
-        r = subprocess.run([binp, 'exec'], input=case + '\n', env=dict(os.environ, GOCOVERDIR=d), stdout=subprocess.PIPE, text=True, timeout=120)
+        # no collection during the run: a collector emptying a sync.Pool would make its New function run again
+        r = subprocess.run([binp, 'exec'], input=case + '\n', env=dict(os.environ, GOCOVERDIR=d, GOGC='off'), stdout=subprocess.PIPE, text=True, timeout=120)
         txt = os.path.join(d, 'p.txt')
         subprocess.run(['go', 'tool', 'covdata', 'textfmt', '-i=' + d, '-o=' + txt], env=env, stdout=subprocess.PIPE, stderr=subprocess.STDOUT, timeout=120)
         prof = {}
@@ -200,7 +201,7 @@ def replay_pair(pair, log):
     profs = []
     for case in pair:
         d = tempfile.mkdtemp(prefix='c09replay', dir=WORK)
-        subprocess.run([binp, 'exec'], input=case + '\n', env=dict(os.environ, GOCOVERDIR=d), stdout=subprocess.PIPE, text=True, timeout=120)
+        subprocess.run([binp, 'exec'], input=case + '\n', env=dict(os.environ, GOCOVERDIR=d, GOGC='off'), stdout=subprocess.PIPE, text=True, timeout=120)
         txt = os.path.join(d, 'p.txt')
         subprocess.run(['go', 'tool', 'covdata', 'textfmt', '-i=' + d, '-o=' + txt], env=env, stdout=subprocess.PIPE, stderr=subprocess.STDOUT, timeout=120)
         prof = {}
